@@ -1005,6 +1005,99 @@ def h_bytevals(F, R):   # noqa: F811
     R.floor("H-intvals", "integer property values", m, 30)
 
 
+_WIRE_SIZE = {"byte": 1, "u16": 2, "u32": 4, "utf8": 5, "binary": 5, "varint": 1}      # strings / binary data: 2 + 3 bytes
+
+
+def _whole_block(F, fid, id_byte, plen):
+    """Evaluate a whole *Properties::decode_async on a block whose declared length is `plen` and whose first identifier byte is
+    `id_byte`: every string read is 3 bytes long, every var-int value takes one byte, integers are 7, bytes are 0."""
+    state = {"n_u8": 0, "nvar": 0}
+    reads = []
+
+    def hook(d, res, args, node, env):
+        r = res or d
+        name = node["fn"].get("name")
+        if r in READ_PRIMS:
+            kind = READ_PRIMS[r]
+            if kind == "varint":
+                state["nvar"] += 1
+                if state["nvar"] == 1:
+                    return pe_ok(Tup([plen, 1]))
+                reads.append(kind)
+                return pe_ok(Tup([5, 1]))
+            if kind == "byte":
+                state["n_u8"] += 1
+                if state["n_u8"] == 1:
+                    return pe_ok(id_byte)
+                reads.append(kind)
+                return pe_ok(0)
+            reads.append(kind)
+            if kind in ("u16", "u32"):
+                return pe_ok(7)
+            return pe_ok(Sym(("read", len(reads))))
+        if name == "len" and len(args) == 1 and isinstance(args[0], Sym):
+            return 3
+        if r.endswith("::try_from") and "TopicName" in r:
+            return pe_ok(Sym(("validated", repr(args[0]))))
+        if name in ("new", "from") and len(args) == 1 and r not in F.fns and ("Arc" in r or "ytes" in r or "sync" in r):
+            return args[0]
+        if name in ("deref", "as_ref", "as_str", "borrow") and len(args) == 1 and r not in F.fns:
+            return args[0]
+        return None
+    pe = PE(F, call_hook=hook, cond_hook=lambda what, node: True if what[0] == "try-ok" else None, fuel=4000)
+    nparams = len([p for p in F.fns[fid]["thir"]["params"] if p.get("pat") is not None])
+    args = [Sym("READER")] + [Sym(("var", "packet_type"))] * (nparams - 1)
+    try:
+        r = pe.call_fn(fid, args)
+    except Undecided as e:
+        return ("undecided", str(e)[:200]), reads
+    k = result_kind(r)
+    if k[0] == "err" and isinstance(k[1], Adt):
+        return ("err", k[1].variant, [k[1].fields[x] for x in sorted(k[1].fields)]), reads
+    return k, reads
+
+
+def t_props_whole(F, R):
+    """Each property-set decoder evaluated as a whole function -- whatever sits before, inside or after its loop -- on blocks
+    holding exactly one allowed property: the result is Ok(set) with exactly that one field filled in and every other field at
+    its default; the empty block gives the default set without reading anything; a declared length one short of the property's
+    size gives InvalidPropertyLength(declared length)."""
+    discr, ents = _analyse(F)
+    n = 0
+    for ent in ents:
+        fid = ent["decode"]
+        try:
+            tab, loop = probe_table(F, fid)
+        except AnchorLost:
+            continue
+        dflt, rd0 = _whole_block(F, fid, 0, 0)
+        okk = dflt[0] == "ok" and isinstance(dflt[1], Adt) and not rd0
+        R.check(okk, "T-props", "%s/whole/empty-block" % ent["name"],
+                "%s on an empty property block gives %s after reads %s (expected the default set, nothing read)" % (ent["name"], repr(dflt)[:160], rd0), where=fid)
+        if not okk:
+            continue
+        base = dflt[1]
+        for v, d in sorted(discr.items(), key=lambda kv: kv[1]):
+            if d not in S.props_of(ent["packet"]) or tab[v]["outcome"] != ("continue",):
+                continue
+            size = 1 + sum(_WIRE_SIZE[k] for k in tab[v]["reads"])
+            n += 1
+            got, rd = _whole_block(F, fid, d, size)
+            good = got[0] == "ok" and isinstance(got[1], Adt) and got[1].adt == base.adt
+            changed = []
+            if good:
+                changed = [f for f in base.fields if vkey_(got[1].fields.get(f)) != vkey_(base.fields[f])]
+                good = len(changed) == 1 and rd == tab[v]["reads"]
+            R.check(good, "T-props", "%s/whole/%s" % (ent["name"], v),
+                    "%s on a block holding exactly one %s (%d bytes) gives %s, fields changed %s, reads %s (expected Ok with exactly one field "
+                    "filled in after reads %s)" % (ent["name"], v, size, repr(got)[:160], changed, rd, tab[v]["reads"]), where=fid)
+            short, _rd = _whole_block(F, fid, d, size - 1)
+            R.check(short[0] == "err" and short[1] == "InvalidPropertyLength" and short[2] == [size - 1], "T-props", "%s/whole/%s/short" % (ent["name"], v),
+                    "%s on a block declared %d bytes long that holds one %s of %d bytes gives %s (documented: InvalidPropertyLength(%d))" % (
+                        ent["name"], size - 1, v, size, repr(short)[:120], size - 1), where=fid)
+    R.floor("T-props", "whole-function (set, property) evaluations", n, 60)
+
+
 def h_topicvals(F, R):
     """A Response Topic is accepted exactly when TopicName's constructor accepts the string that was read: the iteration reads one
     string, hands it to the constructor, stores the constructor's result and makes no other decision on the value; when the
